@@ -2,7 +2,7 @@
 # usage: try_seeded.sh <worktree> <id> [worlds]
 # 1. confirm in the worktree: demo FAILs with the change, PASSes without, test suite unchanged
 # 2. copy patch + demo to /verif/seeded/<id>/
-# 3. apply to /repo, run the quick check, undo
+# 3. apply to a scratch copy of /repo/mininec, run the quick check with VERIF_REPO pointing at it, remove the copy
 set -u
 WT=$1; ID=$2; WORLDS=${3:-1500}
 D=/verif/seeded/$ID
@@ -17,13 +17,12 @@ echo "== demo without change"; PYTHONPATH=$WT timeout 600 /venv/bin/python demo_
 git stash pop -q
 echo "== pytest with change"; PYTHONPATH=$WT timeout 1500 /venv/bin/python -m pytest -q -p no:cacheprovider --timeout=900 test 2>&1 | tail -3 | tee $D/pytest_with.txt
 cd /verif
-echo "== quick check on /repo with the change applied"
-git -C /repo apply $D/patch.diff || { echo "apply failed"; exit 2; }
+echo "== quick check against a scratch copy of /repo with the change applied (VERIF_REPO)"
 SCR=$(mktemp -d)
-VERIF_WORLDS=$WORLDS VERIF_SKIP_SELFTEST=1 VERIF_REPLAY_DIR=$D/replays VERIF_EVIDENCE_DIR=$SCR VERIF_MAX_REPORTS=3 timeout 1500 /venv/bin/python /verif/run_check.py C14 --tier quick > $D/check_with.txt 2>&1
+mkdir -p $SCR/repo && cp -r /repo/mininec $SCR/repo/ && rm -rf $SCR/repo/mininec/__pycache__
+patch -p1 -s -d $SCR/repo -i $D/patch.diff || { echo "apply failed"; rm -rf $SCR; exit 2; }
+VERIF_REPO=$SCR/repo VERIF_WORLDS=$WORLDS VERIF_SKIP_SELFTEST=1 VERIF_REPLAY_DIR=$SCR/replays VERIF_EVIDENCE_DIR=$SCR/ev VERIF_MAX_REPORTS=3 timeout 1500 /venv/bin/python /verif/run_check.py C14 --tier quick > $D/check_with.txt 2>&1
 echo "check rc=$?" | tee -a $D/check_with.txt
-git -C /repo checkout -- .
 rm -rf $SCR
-git -C /repo status --short | head -3
 grep -A2 "^VIOLATION" $D/check_with.txt | cut -c1-300 | head -12
 tail -2 $D/check_with.txt | cut -c1-200
